@@ -249,11 +249,15 @@ Definition c_py_is (a b : cval) : bool :=
   end.
 
 (** key functions of the correspondence: on ints key 0 negates, 1 is [abs], 2 is
-    [v % 2], any other [min(v, 1)]; on a scripted object key k returns its
+    [v % 2], any other [min(v, 1)] — except 4, 5, 6 whose Python results are a set, a
+    dict and an object defining only [__eq__]; the model keeps a canonical int with the
+    same [==] classes ([max(v,1)]: the sets {0,8} / {8,0} / {v}; [v]: the dict {0: v};
+    [v % 2]: the eq-only object).  On a scripted object key k returns its
     pre-built variant number [100*(k+1)+i]; on NaN a new NaN object. *)
 Definition c_keyf (k : keyid) (v : cval) : cval :=
   match v with
-  | Vi z => Vi (match k with 0 => Z.opp z | 1 => Z.abs z | 2 => Z.modulo z 2 | _ => Z.min z 1 end)
+  | Vi z => Vi (match k with 0 => Z.opp z | 1 => Z.abs z | 2 => Z.modulo z 2
+                         | 4 => Z.max z 1 | 5 => z | 6 => Z.modulo z 2 | _ => Z.min z 1 end)
   | Vs i => Vs (100 * (k + 1) + i)
   | Vn i => Vn (100 * (k + 1) + i)
   end.
